@@ -8,6 +8,10 @@ Op lines (integers; a pod object is 7 tokens `id req0 req1 np hasNode term ign`)
   delquota <name>                                                        DeleteQuota
   reset                                                                  ResetQuota
   total <d0> <d1> | refresh <name>                                       (no effect on the accounting)
+  scale <on>                                                             min-quota scaling switched on for this manager (before any
+     quota exists); no observation, no effect: the request floor of a non-lending group is its DECLARED min (`Quota.min`,
+     Model/C01.lean `lendRule`), never CalculateInfo.AutoScaleMin, whatever total / refresh did to the latter
+     (Props/C01.lean `request_floor_ignores_scaled_min`).
   mode <strict>                                                          first line of a case; no observation.
      strict = informer-consistent history: every block then carries `inv <b>` = the model state satisfies the
      local equations (KoordVerif.C01.checkInv, sound by checkInv_sound) in both dimensions; the harness expects 1.
@@ -101,6 +105,7 @@ def runCase (lines : List String) : List String :=
     | l :: t =>
       match toks l with
       | ["mode", m] => go t (m == "1") conc s0 s1 acc
+      | ["scale", _] => go t strict conc s0 s1 acc
       | ["conc", "1"] => go t strict true s0 s1 acc
       | ["conc", "0"] => go t strict false s0 s1 (showState strict s0 s1 :: acc)
       | _ =>
